@@ -177,6 +177,11 @@ class Box:
     def get(self, extra):
         local_in_method = (self.v, extra)
         return local_in_method      # TP-METHOD
+    def walk(self):
+        def step(k):
+            seen = (self.v, k)
+            return seen             # TP-CLOSURE   (self is a free variable of this frame, not an argument)
+        return [step(k) for k in range(2)]
 
 def leaf(a, b, *rest, **kw):
     {decls}
@@ -188,6 +193,7 @@ def mid(n, box):
     for i in range(n):
         acc.append(leaf(i, box, i + 1, key=str(i)))
     r = box.get(acc)
+    box.walk()
     return r
 
 def main():
@@ -216,7 +222,7 @@ def live_cases(ctx, n):
         with open(path, "w") as fh:
             fh.write(src)
         lines = src.split("\n")
-        which = rng.choice(["TP-LEAF", "TP-METHOD"])
+        which = rng.choice(["TP-LEAF", "TP-METHOD", "TP-CLOSURE"])
         line = [i + 1 for i, t in enumerate(lines) if which in t][0]
         ft = rng.choice(["single_frame", "all_frame", "no_frame"])
         cfg = ConfigService({"APP_ROOT": os.path.dirname(path)}, tracepoints=TracepointConfigService())
